@@ -51,7 +51,7 @@ def _key_of(e):
     return None
 
 
-def extract(ctx, body):
+def extract(ctx, body, _mode=True):
     """{bb: [(pos, event, site)]} for a connection-handler body"""
     an = ctx.an(body)
     ev = {}
@@ -66,7 +66,15 @@ def extract(ctx, body):
         st = site(body, bb)
         if n1.endswith("Connection::receive_packet"):
             ka = t.args[1].const_bool()
-            add(bb, 10 ** 9, "rp:%s" % ("?" if ka is None else str(ka).lower()), st)
+            lab = "?" if ka is None else str(ka).lower()
+            if ka is None and _mode:
+                # the mode may be spelled with another two-valued type than bool (listen_common.KeepAliveMode)
+                km = getattr(ctx, "_keepalive_mode", None)
+                if km is None:
+                    from .rules.listen_common import KeepAliveMode
+                    km = ctx._keepalive_mode = KeepAliveMode(ctx)
+                lab = km.classify(an.operand_expr(t.args[1], (bb, "term")))
+            add(bb, 10 ** 9, "rp:%s" % lab, st)
         elif n1.endswith("ReadPacket::read_from_buffer"):
             add(bb, 10 ** 9, "recv:" + packet_short(garg(t, 0)), st)
         elif n1.endswith("Connection::send_packet"):
